@@ -359,6 +359,7 @@ SETFAULT_QUICK = [
     SetFaultCfg("small", "TR", "less", "coarse", "set", 2, "basic"),
     SetFaultCfg("small", "NTR", "greater", "less", "flat", 3, "basic"),
     SetFaultCfg("small", "TR", "stateful", "less", "flat", 4, "exact"),
+    SetFaultCfg("flat", "NTR", "less", "greater", "v", alloc="exact", std="c++20"),  # C++20 dispatch of range arguments (merge hands a move-iterator range to the vector)
 ]
 SETFAULT_THOROUGH = [
     # no std::vector underlying here: after a throwing copy std::vector::insert leaves moved-from elements behind (its own basic guarantee);
